@@ -91,8 +91,13 @@ def reference_matrix(calc, inp, s=None):
     om = np.zeros((N, N), dtype=object)
     for (i, j, dx, W, t) in rates:
         if i != j:
-            # sqrt(rho_i) W_ij / sqrt(rho_j) = sqrt(W_ij W_ji) = Q y_i y_j / (y_T^2 sqrt(P_i P_j)); prefactors are 1 here
-            om[i, j] = om[i, j] + inp.Q[t] * inp.yE(calc.invmap[i]) * inp.yE(calc.invmap[j]) / (inp.yT(t) * inp.yT(t))
+            # sqrt(rho_i) W_ij / sqrt(rho_j) = sqrt(W_ij W_ji) = Q y_i y_j / (y_T^2 sqrt(P_i P_j)); sqrt(P) is the monomial variable
+            # of a symbolic prefactor (1 when the prefactors are fixed to 1)
+            def yP(w_):
+                nm = '%sP%d' % (inp.tag, w_)
+                return Sym(ENG.logv[nm][1]) if nm in ENG.logv else 1
+            om[i, j] = om[i, j] + inp.Q[t] * inp.yE(calc.invmap[i]) * inp.yE(calc.invmap[j]) / \
+                (inp.yT(t) * inp.yT(t) * yP(calc.invmap[i]) * yP(calc.invmap[j]))
             om[i, i] = om[i, i] - W
     return om, s, rho, rates
 
@@ -165,22 +170,32 @@ def make_oracle(AL, w, V):
     return oracle
 
 
-def loss_laws(cname, grid=None, sym_pre=False):
+def loss_laws(cname, grid=None, sym_pre=False, equal_energies=False):
+    """equal_energies (grid instances with prefactors as inputs): every site energy pinned to the SAME value while the site
+    prefactors are pinned to different ones (degenerate energies, unequal occupations)"""
     def fn():
         ENG.eigh_contract = True
         ENG.exact_sqrt_consts = True
         crys, calc, jn = get_calc(cname)
         N, dim = calc.N, calc.dim
-        name = 'loss:%s:%s' % (cname, 'sym' if grid is None else 'g%d' % grid)
+        name = 'loss:%s:%s' % (cname, ('sym' if grid is None else 'g%d' % grid) + ('-eqE' if equal_energies else ''))
         inp = inter.Inputs(calc, sym_pre=sym_pre)
         if grid is not None:
-            for h in inter.concrete_instance(inp, grid):
+            fixed = {'y_E%d' % w: 1.25 for w in range(len(calc.sitelist))} if equal_energies else None
+            for h in inter.concrete_instance(inp, grid, fixed):
                 ENG.assume(h)
+        else:
+            # exp(x) >= 1 + x between every two site energies: energies that the code finds close have close monomial variables
+            for w1 in range(len(calc.sitelist)):
+                for w2 in range(len(calc.sitelist)):
+                    if w1 != w2:
+                        (E1, y1), (E2, y2) = ENG.logv['E%d' % w1], ENG.logv['E%d' % w2]
+                        ENG.assumes.append(y1 >= y2 * (1 + (E1 - E2) / 2))
         src = harness.Src()
         dip = [src.reals('P%d' % w, (dim, dim), -1, 1) for w in range(len(calc.sitelist))]
         inputs = dict(inp.inputs)
         inputs.update(src.inputs)
-        info = {'inputs': inputs, 'replayer': 'loss', 'extra': {'crystal': cname, 'sym_pre': sym_pre}}
+        info = {'inputs': inputs, 'replayer': 'loss', 'extra': {'crystal': cname, 'sym_pre': sym_pre, 'equal_energies': equal_energies}}
         # sqrt(rho): the library's own terms (same memoised sqrt unknowns as inside losstensors), so that the spectral facts
         # meet the code's expressions syntactically; they are checked against the harness' rho below (lemma D)
         s_code, _ = inter.code_sqrt_rho(calc, inp)
@@ -448,8 +463,12 @@ def sections(tier):
     else:
         plan = [('X2', None, 1200), ('X2b', None, 1200), ('X5', None, 1200), ('X1s', None, 1200)] + \
                [(c, k, 1200) for c in ('X2', 'X2b', 'X5', 'X1s', 'X1', 'X6', 'bccoct', 'tri-edge', 'hcp-ot', 'bcc-oct-trig') for k in range(4)]
-    return [S('loss:%s:%s' % (c, 'sym' if g is None else 'g%d' % g), loss_laws(c, g), timeout_ms=30000, budget_s=b, replayer='loss',
+    secs = [S('loss:%s:%s' % (c, 'sym' if g is None else 'g%d' % g), loss_laws(c, g), timeout_ms=30000, budget_s=b, replayer='loss',
               config='%s/%s' % (c, 'all energies symbolic' if g is None else 'grid %d' % g), maxpaths=40) for c, g, b in plan]
+    for c in (('X2', 'X5', 'hcp-ot') if tier == 'quick' else ('X2', 'X2b', 'X5', 'hcp-ot', 'tri-edge', 'bccoct')):
+        secs.append(S('loss:%s:g0-eqE' % c, loss_laws(c, 0, sym_pre=True, equal_energies=True), timeout_ms=30000, budget_s=160 if tier == 'quick' else 1200,
+                      replayer='loss', config='%s/equal site energies, unequal site prefactors' % c, maxpaths=40))
+    return secs
 
 
 def main():
